@@ -92,7 +92,9 @@ Record state := St { sh : shared; ths : list thread }.
 (* ---------- small helpers ---------- *)
 Definition requires_sync (l : N) : bool := negb ((l =? 0) || (l =? 1)).
 Definition dec64 (x : N) : N := if x =? 0 then W64 - 1 else x - 1.   (* fetch_sub(1) on u64 *)
-Definition inc64 (x : N) : N := (x + 1) mod W64.                      (* fetch_add(1) on u64 *)
+(* fetch_add(1) on u64.  NOT wrapped: 2^64 simultaneously live tokens / 2^64 acquisitions from one
+   manager are outside the model (stated as an assumption of the check). *)
+Definition inc64 (x : N) : N := x + 1.
 
 Definition opt_list {A} (o : option A) : list A := match o with Some x => [x] | None => [] end.
 Fixpoint remove_nth {A} (i : nat) (l : list A) : list A :=
